@@ -72,6 +72,19 @@ func (a CheckRequestWrapperAction) Execute(services *SwapServices, swap *SwapDat
 		return swap.HandleError(errors.New(swap.CancelMessage))
 	}
 
+	// All amount checks are done in msat: an amount whose msat value does not
+	// fit into 64 bit would wrap around and pass them.
+	if swap.GetAmount() > math.MaxUint64/1000 {
+		swap.CancelMessage = "swap amount is too large"
+		services.requestedSwapsStore.Add(swap.PeerNodeId, RequestedSwap{
+			Asset:           swap.GetChain(),
+			AmountSat:       swap.GetAmount(),
+			Type:            swap.GetType(),
+			RejectionReason: swap.CancelMessage,
+		})
+		return swap.HandleError(errors.New(swap.CancelMessage))
+	}
+
 	if swap.GetAmount()*1000 < services.policy.GetMinSwapAmountMsat() {
 		swap.CancelMessage = ErrMinimumSwapSize(services.policy.GetMinSwapAmountMsat()).Error()
 		services.requestedSwapsStore.Add(swap.PeerNodeId, RequestedSwap{
